@@ -420,6 +420,26 @@ func inputs() {
 			}
 		}
 	}
+	// KeyboardEvent.key names as browsers report them (UI Events KeyboardEvent key Values):
+	// the ones tcell has a key for must arrive as that key, named keys without an
+	// equivalent must not arrive as their first letter
+	for name, want := range map[string]tcell.Key{"PageUp": tcell.KeyPgUp, "PageDown": tcell.KeyPgDn, "ArrowUp": tcell.KeyUp, "Home": tcell.KeyHome, "End": tcell.KeyEnd, "Insert": tcell.KeyInsert, "Delete": tcell.KeyDelete, "Escape": tcell.KeyEscape, "Enter": tcell.KeyEnter, "Tab": tcell.KeyTab, "Backspace": tcell.KeyBackspace2, "F1": tcell.KeyF1, "F12": tcell.KeyF12} {
+		w.R.Evaluations++
+		g.Call("onKeyEvent", name, false, false, false, false)
+		got := poll(s)
+		if len(got) != 1 || got[0].Kind != "key" || (got[0].Key != want && !(want == tcell.KeyBackspace2 && got[0].Key == tcell.KeyBackspace)) {
+			w.Violation("wasm-key-name:"+name, fmt.Sprintf("KeyboardEvent.key %q delivered %v, want the key %v", name, got, tcell.KeyNames[want]), nil)
+		}
+	}
+	for _, name := range []string{"CapsLock", "NumLock", "ScrollLock", "Dead", "ContextMenu", "Unidentified", "AudioVolumeUp", "Process"} {
+		w.R.Evaluations++
+		g.Call("onKeyEvent", name, false, false, false, false)
+		for _, e := range poll(s) {
+			if e.Kind == "key" && e.Key == tcell.KeyRune {
+				w.Violation("wasm-key-name:unknown", fmt.Sprintf("KeyboardEvent.key %q (a named key, not a character) was delivered as the typed character %q", name, e.Rune), nil)
+			}
+		}
+	}
 	for _, k := range []string{"Control", "Alt", "Meta", "Shift"} {
 		g.Call("onKeyEvent", k, true, false, false, false)
 		if got := poll(s); len(got) != 0 {
